@@ -87,6 +87,23 @@ async def exchange(case, script):
     cl = ops.Client(dev, 2, case["device_id"], "18")
     await cl.connect()
     try:
+        nbefore = 0
+        first = case.get("first")
+        if first:
+            # an earlier control call on the same API object and remote object: nothing of it may survive into the next
+            dev.set_script(script_for(dict(case, cur=first["cur"]), 4))
+            remote0, _ = ops.remote_for(case["ir"])
+            kw0 = ops.breeze_kwargs(first["req"])
+            if first.get("update"):
+                kw0["update_state"] = True
+            import asyncio as _aio
+            with vclock.frozen_epoch("UTC", case["ts"] - 60):
+                try:
+                    await _aio.wait_for(cl.api.control_breeze_device(remote0, **kw0), 20)
+                except Exception:
+                    pass
+                await cl.settle()
+            nbefore = len(cl.conn.frames)
         dev.set_script(script)
         k = case.get("empty_read")
         if k is not None:
@@ -117,7 +134,7 @@ async def exchange(case, script):
             except Exception as exc:  # noqa
                 out = ("raise", exc)
             await cl.settle()
-        return out[0], out[1], list(cl.conn.frames)
+        return out[0], out[1], list(cl.conn.frames[nbefore:])
     finally:
         await cl.close()
 
@@ -141,6 +158,8 @@ def body(rep, case, sub="dense"):
     empty_read = case.get("empty_read")
     if empty_read is not None:
         labels.append(f"empty-read@step{empty_read}")
+    if case.get("first"):
+        labels.append("second-call-on-same-object")
     if mdl[0] == "skip":
         rep.label("unspecified-by-C15-skipped")
         return
@@ -241,7 +260,10 @@ def strat(dense, faults):
                     **({"empty_read": fault} if transient and fault is not None else {})),
                 cur_states(modes), requests(modes), st.booleans(),
                 st.integers(0, 3) if faults else st.none(), gen.device_ids, gen.sessions, gen.timestamps, st.integers(1, 100),
-                st.booleans() if faults else st.just(False))
+                st.booleans() if faults else st.just(False)).flatmap(
+                    lambda c: st.one_of(st.just(c), st.just(c), st.builds(
+                        lambda cur0, req0, up0: dict(c, first={"cur": cur0, "req": req0, "update": up0}),
+                        cur_states(modes), requests(modes), st.booleans())) if not faults else st.just(c))
         return specs.flatmap(with_spec)
     return build
 
